@@ -706,7 +706,7 @@ func sanityCheckValue(fp *os.File, value int64) (isSane bool) {
 	// As a sanity check, get the file size to ensure that TGLen is reasonable prior to buffer allocations
 	fstat, _ := fp.Stat()
 	sanityLen := safetyFactor * fstat.Size()
-	return value < sanityLen
+	return value >= 0 && value < sanityLen
 }
 
 var haveWALWriter = false
